@@ -501,7 +501,7 @@ func isMutationOp(doc *ast.Document, opName string) bool {
 
 // GenCase draws schema, valid document, variables, world and entry point.
 func GenCase(r *hx.Rng, m Mode) *Case {
-	sg := &gen.SchemaGen{R: r, Size: r.Range(1, 5)}
+	sg := &gen.SchemaGen{R: r, Size: r.Range(1, 5), PanickySerialize: true}
 	if m.MutationOnly {
 		sg.NoMutation = false
 	}
